@@ -30,7 +30,7 @@ manifest = {
         "guard": "uec_verif",
         "enable": "RUSTFLAGS=\"--cfg uec_verif\" (set by ./check and ./setup when building the harness against /repo, and by the harness for the C19 probe crates); the only hook is packages/push/src/push_vm/verif_mini_state.rs (a second state struct with the push_state macro applied, one of its stacks renamed with builder_name), everything else is reached through public API",
         "baseline_off_cmd": "cd /repo && cargo test --workspace --no-fail-fast --offline",
-        "source_commits": ["11685a0", "655e8dc"],
+        "source_commits": ["11685a0", "655e8dc", "8830379"],
         "add_only": True,
     },
     "engines": [
